@@ -257,6 +257,48 @@ CHECKS["C09"] = (
     "bounded-exhaustive input/permutation enumeration with metamorphic and "
     "rule-table oracles")
 
+CHECKS["C13"] = (
+    "4/C13",
+    "Inputs: product of generating parameter sets (index, radius, depth, "
+    "in-plane position incl. sub-pixel offsets, scaling incl. a value on "
+    "its prior bound... ) x starting points (truth, every single-parameter "
+    "+-2%, the 2^6 sign corners at 1%) x {NmpfitStrategy, "
+    "LeastSquaresScipyStrategy} x {full image, seeded 150-pixel subset} on "
+    "noise-free data from the model's own forward calculation, plus "
+    "MieLens with a fitted lens angle: fixed point from the truth, misfit "
+    "never worse than the guess, parameters within prior bounds, recovery "
+    "(position/radius/scaling free, as the property states), names, "
+    "result.hologram / max_lnprob bit-identical to the forward model, "
+    "repeat fit identical, model/data/strategy untouched; save/load "
+    "cycles 1-3 per strategy x data kind.  Histories: every sequence of "
+    "length <= 3 over {fit Nmpfit, fit Nmpfit-subset, fit SciPy, "
+    "save+load, read .hologram} on one shared model/data/strategy triple "
+    "vs pristine-interpreter references.",
+    "Trusted: fork() gives a pristine interpreter; the global numpy RNG is "
+    "seeded by the harness before fits that draw pixel subsets.  Optimiser "
+    "behaviour is decided on the enumerated problems only.",
+    "bounded-exhaustive input/configuration enumeration + exhaustive "
+    "operation-sequence search (depth 3) with differential oracle")
+CHECKS["C17"] = (
+    "4/C17",
+    "Bounded-exhaustive on the real fft/ifft/propagate: ALL shapes in "
+    "[2..9]^2 (quick [2..6]^2) plus odd/even mixes up to 64, for each the "
+    "COMPLETE unit-impulse basis (real and imaginary) so that the linear "
+    "map is fully determined, impulse pairs for linearity, dense real and "
+    "complex images; spacings on both sides of half the medium wavelength "
+    "(and of lambda/sqrt2 for the diagonal), anisotropic spacing with "
+    "shifted origin; distance alphabet of both signs and many magnitudes, "
+    "all ordered pairs for the group law, lists incl. zeros, cfsp and "
+    "gradient-filter options: inverse with coordinates, fft == numpy, "
+    "d=0 identity, P(d2)P(d1)=P(d1+d2), P(-d)P(d)=1 at coarse sampling, "
+    "linearity, operator norm <= 1, list = stack of singles, coordinates / "
+    "attrs / name preserved, inputs (incl. the distance list) untouched.",
+    "Trusted: numpy.fft.  The frequency grid / sign convention of the "
+    "transfer function is not asserted (any convention that keeps the "
+    "stated identities passes).",
+    "bounded-exhaustive input enumeration (complete impulse bases) vs "
+    "numpy reference and algebraic identities")
+
 NOT_YET = {}
 
 
